@@ -56,6 +56,7 @@ Record consts_facts := {
   cf_cmds : CMD_ENTER_CFG_MODE <> CMD_RECALIBRATE;
   cf_press : 0 < PRESS_TIME_MS * 1000 < 4294967296;
   cf_count : 1 < PRESS_COUNT <= 127;
+  cf_text : PRESS_COUNT = 10 /\ PRESS_TIME_MS = 5000;      (* the numbers of the property text *)
   cf_states : STATE_ACTIVE <> STATE_INACTIVE;
   cf_res : RES_UNAUTHORIZED <> RES_DONE /\ RES_UNAUTHORIZED <> RES_NOT_SUPPORTED }.
 Lemma consts_ok : consts_facts.
